@@ -132,7 +132,18 @@ pub fn gen_bsetter(rng: &mut Rng, vmax: u8) -> BSetter {
 
 pub fn gen_color(rng: &mut Rng, raster_safe: bool) -> ColorSpec {
     const NAMED: [&str; 6] = ["#ff0000", "#00ff0080", "#123", "#ABCDEF", "#000000", "#fefefe"];
-    const ODD: [&str; 3] = ["red", "rgb(1,2,3)", "url(#g)"];
+    // caller-supplied text is written verbatim: whitespace runs, tabs, line breaks, non-ASCII
+    const ODD: [&str; 9] = [
+        "red",
+        "rgb(1,2,3)",
+        "url(#g)",
+        "rgb(10,  20,  30)",
+        "  #fff  ",
+        "rgb(1,\t2,\n3)",
+        "hsl(120,\r\n 50%, 50%)",
+        "coul\u{e9}ur-\u{540d}",
+        "#fff ",
+    ];
     match rng.below(if raster_safe { 4 } else { 5 }) {
         0 => ColorSpec::Rgba([rng.below(256) as u8, rng.below(256) as u8, rng.below(256) as u8, *rng.pick(&[255u8, 255, 0, 128])]),
         1 => ColorSpec::Rgb([rng.below(256) as u8, rng.below(256) as u8, rng.below(256) as u8]),
@@ -167,11 +178,23 @@ pub fn gen_rsetter(rng: &mut Rng, is_img: bool, raster_safe: bool, allow_panicky
                 ImageSpec::Svg
             }
         } else {
-            match rng.below(4) {
+            match rng.below(6) {
                 0 => ImageSpec::Png,
                 1 => ImageSpec::Svg,
                 2 => ImageSpec::Filler(rng.range(0, 200) as usize),
-                _ => ImageSpec::Raw("./logo.png".to_string()),
+                3 => ImageSpec::Raw("./logo.png".to_string()),
+                _ => ImageSpec::Raw(
+                    (*rng.pick(&[
+                        // line-wrapped base64 (CRLF at a fixed column), as e-mail style encoders produce
+                        "data:image/png;base64,iVBORw0KGgoAAAANSUhEUgAAAAEAAAABCAYAAAAfFcSJ\r\nAAAADUlEQVR42mP8z8BQDwAEhQGAhKmMIQAAAABJRU5ErkJggg==\r\n",
+                        "data:image/png;base64,iVBORw0KGgo\nAAAANSUhEUg\n",
+                        "images/my  logo\tfinal.png",
+                        "donn\u{e9}es/\u{56fe}\u{6807} \u{1f4f7}.png",
+                        " leading and trailing ",
+                        "a\u{a0}b\u{2003}c",
+                    ]))
+                    .to_string(),
+                ),
             }
         }),
         6 => RSetter::ImageBgColor(gen_color(rng, raster_safe)),
